@@ -157,3 +157,37 @@ def check_edge_tables(fn_rows, edge_node, face_edge, n_edge, nnpf, n_max):
 
 def model_table(vals, prefix="fn"):
     return [[int(x) for x in row] for row in vals[prefix]]
+
+
+DIMS = {"node": "n_node", "edge": "n_edge", "face": "n_face"}
+
+
+def clone_grid_from(vars_, spec="UGRID"):
+    """cloned Grid over a symxr dataset with exactly the given variables: {name: (dims, list-or-SArr, attrs?)}"""
+    w = world()
+    ds = symxr.Dataset()
+    for k, v in vars_.items():
+        dims, data = v[0], v[1]
+        attrs = v[2] if len(v) > 2 else {}
+        if not isinstance(data, symnp.SArr):
+            data = sarr_1d(data, symnp.float64) if not (data and isinstance(data[0], (list, tuple))) else sarr_int(data)
+        ds[k] = symxr.DataArray(data, dims=list(dims), attrs=attrs)
+    Grid = w.get("uxarray.grid.grid", "Grid")
+    return Grid.from_dataset(ds, source_grid_spec=spec)
+
+
+def real_grid_from(vars_, spec="UGRID"):
+    import xarray as xr
+    import uxarray as ux
+    ds = xr.Dataset()
+    for k, v in vars_.items():
+        dims, data = v[0], v[1]
+        attrs = v[2] if len(v) > 2 else {}
+        arr = np.array(data)
+        if arr.dtype.kind in "iu":
+            arr = arr.astype(np.intp)
+        ds[k] = xr.DataArray(arr, dims=list(dims), attrs=attrs)
+    return ux.Grid.from_dataset(ds, source_grid_spec=spec)
+
+
+FN_ATTRS = {"cf_role": "face_node_connectivity", "_FillValue": F, "start_index": 0}
